@@ -145,11 +145,31 @@ impl Cx {
     }
     pub fn sample(&mut self, v: Value) {
         if self.sampling && self.sample.is_none() {
-            self.sample = Some(v);
+            self.sample = Some(compact(v));
         }
     }
     pub fn choices(&self) -> Vec<u32> {
         self.trail.iter().map(|t| t.0).collect()
+    }
+}
+
+/// Sample descriptions go into the evidence file, which has to stay small: an array of more than 48 elements
+/// (a 40000-knot list, say) is recorded as its length with its first and last eight elements.
+pub fn compact(v: Value) -> Value {
+    match v {
+        Value::Array(a) if a.len() > 48 => {
+            let n = a.len();
+            let first: Vec<Value> = a[..8].iter().cloned().map(compact).collect();
+            let last: Vec<Value> = a[n - 8..].iter().cloned().map(compact).collect();
+            json!({"len": n, "first": first, "last": last})
+        }
+        Value::Array(a) => Value::Array(a.into_iter().map(compact).collect()),
+        Value::Object(m) => Value::Object(m.into_iter().map(|(k, x)| (k, compact(x))).collect()),
+        Value::String(t) if t.len() > 2000 => {
+            let cut = (0..=2000).rev().find(|&i| t.is_char_boundary(i)).unwrap_or(0);
+            Value::String(format!("{}… ({} bytes)", &t[..cut], t.len()))
+        }
+        x => x,
     }
 }
 
